@@ -200,8 +200,24 @@ func runC46(c *Ctx) {
 			default:
 				c.ok("C46/handler", k, "", hs[k]+": "+got)
 			}
+			// a relayer allow list is the one of the client on THIS chain that the message is about
+			if cl, ok := relayerClientOf[k]; ok && known && got == want {
+				ok1 := "T(call:*/02-client/v2/types.Config.IsAllowedRelayer(call:*GetConfig(_, _, " + cl + "), _))"
+				c.CheckRets(which, "C46/relayer-list-of", rr, NilErr(e), 1, nil,
+					Req{Name: "this-chains-client", Any: [][]string{{ok1}, {"eq(field:ClientV2Keeper(param#0), nil)"}}})
+			}
 		}
 	}
+}
+
+// relayerClientOf: which client's configuration holds the allow list consulted by a relayer-gated handler — the
+// client that lives on this chain: the destination client of a received packet, the source client of an
+// acknowledged or timed-out packet, the updated client.
+var relayerClientOf = map[string]string{
+	"core/keeper.Keeper.UpdateClient":                  "field:ClientId(param#2)",
+	"core/04-channel/v2/keeper.Keeper.RecvPacket":      "field:DestinationClient(field:Packet(param#2))",
+	"core/04-channel/v2/keeper.Keeper.Acknowledgement": "field:SourceClient(field:Packet(param#2))",
+	"core/04-channel/v2/keeper.Keeper.Timeout":         "field:SourceClient(field:Packet(param#2))",
 }
 
 // c46Extras: counterparty registration happens once; light-client modules are only reachable through the
